@@ -122,7 +122,11 @@ def check_C01(ctx):
 
 PAST = "2000-01-01 00:00:00"
 FUTURE = "2999-01-01 00:00:00"
-K = {"R": ["R", False], "P": ["P", False], "S": ["S", False], "U": ["U", False], "T": ["T", False], "F": ["F", False],
+TOS = ["2001-01-01 00:00:00", "2002-01-01 00:00:00", "2003-01-01 00:00:00", "2004-01-01 00:00:00"]
+MNAMES = ["m1", "m2", "m3", "m4"]
+K = {"T1": ["T1", False], "T2": ["T2", False], "T3": ["T3", False], "T1u": ["T1", True], "T2u": ["T2", True], "T3u": ["T3", True],
+     "M1": ["M1", False], "M2": ["M2", False], "M3": ["M3", False], "M1u": ["M1", True], "M2u": ["M2", True],
+     "R": ["R", False], "P": ["P", False], "S": ["S", False], "U": ["U", False], "T": ["T", False], "F": ["F", False],
      "Ru": ["R", True], "Pu": ["P", True], "Tu": ["T", True], "Su": ["S", True]}
 
 
@@ -131,7 +135,8 @@ def lines_gen(L, D, E, kinds, unit="  ", base=0, free=(), ws=(), blank=True, suf
     g = {"base": "GenLines", "constraint": "Feasible",
          "consts": {"L": L, "D": D, "E": E, "Kinds": TlaSet([K[k] for k in kinds]), "Unit": Chars(unit), "Base": base,
                     "FreeInd": TlaSet(list(free)), "WsLens": TlaSet(list(ws)), "Blank": blank, "Suffix": Chars(suffix),
-                    "PastTo": Chars(PAST), "FutureTo": Chars(FUTURE)}}
+                    "PastTo": Chars(PAST), "FutureTo": Chars(FUTURE),
+                    "Tos": [Chars(t) for t in TOS], "Names": [Chars(n) for n in MNAMES]}}
     if simulate:
         g["simulate"] = simulate
     return g
